@@ -4,7 +4,12 @@
 //!      `c17_trait_hs <hex public key>` -> `<hash> <scalar>` through the provided method `Hashable::hash_to_scalar`;
 //!      `c17_trait_hs_tx <hex tx>` -> `ok <tx hash> <tx scalar> <prefix hash> <prefix scalar> <sig-base hash|-> <sig-base scalar|->`
 //!        (the provided method on the three other implementors `Transaction`, `TransactionPrefix`, `RctSigBase`) or `err`;
-//!      `c17_hs_ctor <slice|hex|hex0x|str|dec|from> <hex 32-byte digest>` -> scalar hex of a `Hash` built through another constructor.
+//!      `c17_hs_ctor <slice|hex|hex0x|str|dec|from> <hex 32-byte digest>` -> scalar hex of a `Hash` built through another constructor;
+//!      `c17_seq <order> <hex msg>` -> the results, separated by spaces, of a SEQUENCE of operations on the same message executed back to
+//!        back in the order of the letters of `<order>`: `s` `Hash::hash_to_scalar(m)` (scalar), `n` `Hash::new(m)` (digest), `k`
+//!        `keccak_256(m)` (digest), `a` `Hash::new(m).as_scalar()` (scalar), `p` / `q` `Hashable::hash()` / `Hashable::hash_to_scalar()` of
+//!        the `PublicKey` with bytes `m` (digest / scalar; `err` if `m` is not a key), `x` / `y` the same two methods of the
+//!        `TransactionPrefix` decoded from `m` (`err` if `m` does not decode).
 use crate::common::*;
 use curve25519_dalek::scalar::Scalar;
 use monero::cryptonote::hash::{keccak_256, Hash};
@@ -63,10 +68,31 @@ pub fn exec(t: &[&str]) -> Option<String> {
         ["c17_trait_hs", h] => Some(match monero::PublicKey::from_slice(&unhex(h)) { Ok(k) => { use monero::cryptonote::hash::Hashable; format!("{} {}", hex(&k.hash().0), hex(&k.hash_to_scalar().to_bytes())) } Err(_) => "err".into() }),
         ["c17_trait_hs_tx", h] => Some(trait_tx_line(&unhex(h))),
         ["c17_hs_ctor", k, h] => Some(hs_ctor_line(k, &unhex(h))),
+        ["c17_seq", order, h] => Some(seq_line(order, &unhex(h))),
         _ => None,
     }
 }
 
+/// a sequence of hashing operations on ONE message, back to back in the given order (a record shared between `Hash::new`,
+/// `keccak_256`, `hash_to_scalar` and the `Hashable` methods must not let one operation's result stand in for another's)
+fn seq_line(order: &str, m: &[u8]) -> String {
+    use monero::cryptonote::hash::Hashable;
+    let mut out: Vec<String> = vec![];
+    for c in order.chars() {
+        out.push(match c {
+            's' => hex(&Hash::hash_to_scalar(m).to_bytes()),
+            'n' => hex(&Hash::new(m).to_bytes()),
+            'k' => hex(&keccak_256(m)),
+            'a' => hex(&Hash::new(m).as_scalar().to_bytes()),
+            'p' => match monero::PublicKey::from_slice(m) { Ok(k) => hex(&k.hash().0), Err(_) => "err".into() },
+            'q' => match monero::PublicKey::from_slice(m) { Ok(k) => hex(&k.hash_to_scalar().to_bytes()), Err(_) => "err".into() },
+            'x' => match monero::consensus::encode::deserialize::<monero::TransactionPrefix>(m) { Ok(p) => hex(&p.hash().0), Err(_) => "err".into() },
+            'y' => match monero::consensus::encode::deserialize::<monero::TransactionPrefix>(m) { Ok(p) => hex(&p.hash_to_scalar().to_bytes()), Err(_) => "err".into() },
+            _ => "bad-op".into(),
+        });
+    }
+    out.join(" ")
+}
 /// `Hashable::hash_to_scalar` (provided method) on the implementors other than `PublicKey`, next to `hash()` of the same value
 fn trait_tx_line(b: &[u8]) -> String {
     use monero::cryptonote::hash::Hashable;
@@ -153,6 +179,27 @@ fn hs_case(o: &mut Out, d: &[u8; 32], fam: &str) {
     o.direct(got == w2, "c17: as_scalar == LE(d) mod l (by subtraction)", hex(d), hex(&got), hex(&w2));
     o.op(format!("c17_hs {}", hex(d)), reduced);
 }
+/// all permutations of a short string, in a fixed order
+fn perms(s: &str) -> Vec<String> {
+    fn go(rest: Vec<char>, cur: String, out: &mut Vec<String>) {
+        if rest.is_empty() { out.push(cur); return; }
+        for i in 0..rest.len() { let mut r = rest.clone(); let c = r.remove(i); let mut n = cur.clone(); n.push(c); go(r, n, out); }
+    }
+    let mut out = vec![]; go(s.chars().collect(), String::new(), &mut out); out
+}
+/// one `c17_seq` line, its results also checked in Rust against the table-free Keccak and the subtraction oracle
+fn seq_case(o: &mut Out, order: &str, m: &[u8], fam: &str) {
+    o.stat(&format!("seq.{}", fam));
+    o.stat(&format!("seq.first={}", &order[..1]));
+    let line = format!("c17_seq {} {}", order, hex(m));
+    let res = o.op(line.clone(), true);
+    let d = keccak_ind(m); let sc = mod_l_by_subtraction(&d);
+    let want: Vec<String> = order.chars().map(|c| if "saqy".contains(c) { hex(&sc) } else { hex(&d) }).collect();
+    let want = want.join(" ");
+    o.direct(res == want, "c17: every operation of a back-to-back sequence on one message returns ITS OWN result (digest = spec Keccak-256, scalar = digest mod l by subtraction), whatever ran before it", line, res, want);
+}
+/// k·x for a small k, 256-bit wrapping
+pub fn le_mul_small(x: &[u8; 32], k: u64) -> [u8; 32] { let mut a = [0u8; 32]; for _ in 0..k { a = le_add(&a, x); } a }
 fn content(rng: &mut Rng, len: usize) -> Vec<u8> {
     match rng.below(12) {
         0 => vec![0u8; len],
@@ -306,9 +353,108 @@ pub fn run(o: &mut Out, tier: &str, seed: u64) {
         for len in [65_536usize, 278_528] { let a = rng.bytes(len); let mut b = a.clone(); b[len - 1] ^= 0x01; o.stat("keccak.huge.pair"); msg_case(o, &a, "huge.pair", false); msg_case(o, &b, "huge.pair", false);
             o.direct(keccak_256(&a) != keccak_256(&b), "c17: two different messages of equal length sharing a prefix of >= 256 bytes have different digests", format!("c17_keccak {}", hex(&b)), hex(&keccak_256(&b)), "a different digest".into()); }
     }
+    // (11) the fixed messages of the kernel-evaluated vectors of Props/C17.lean (`C17_kats_*`): the library, tiny-keccak fed in two pieces,
+    // the table-free Keccak and (through the `c17_keccak` line) the Lean reference all hash them on every run, and the library's digest
+    // is compared with the value written in the theorem
+    {
+        let kats: [(&str, Vec<u8>, &str); 5] = [
+            ("C17_kats_empty", vec![], "c5d2460186f7233c927e7db2dcc703c0e500b653ca82273b7bfad8045d85a470"),
+            ("C17_kats_abc", b"abc".to_vec(), "4e03657aea45a94fc7d47ba826c8d667c0d1e6e33a64a036ec44f58fa12d6c45"),
+            ("C17_kats_fox", b"The quick brown fox jumps over the lazy dog".to_vec(), "4d741b6f1eb29cb2a9b9911c82f56fa8d73b04959d3d9d222895df6c0b28aa15"),
+            ("C17_kats_len135", (0..135u8).collect(), "cbdfd9dee5faad3818d6b06f95a219fd290b0e1706f6a82e5a595b9ce9faca62"),
+            ("C17_kats_two_blocks", vec![0xa3u8; 200], "3a57666b048777f2c953dc4456f45a2588e1cb6f2da760122d530ac2ce607d4a"),
+        ];
+        for (name, m, want) in kats.iter() {
+            msg_case(o, m, "kat", true);
+            let got = hex(&keccak_256(m));
+            o.direct(got == *want, "c17: keccak_256 of the message of a kernel-evaluated vector equals the digest stated in the Lean theorem", format!("{} c17_keccak {}", name, hex(m)), got, want.to_string());
+        }
+    }
+    // (12) CROSS-OPERATION sequences on one message: hash_to_scalar, Hash::new, keccak_256, Hash::new().as_scalar() (and the `Hashable`
+    // methods where the message is a public key / a serialised transaction prefix) back to back in every order — a record shared by
+    // two of them must never hand one operation the other's result (a scalar where a digest is due, or the reverse)
+    {
+        let p3 = perms("snk");
+        let alpha4 = ['s', 'n', 'k', 'a'];
+        let mut lens: Vec<usize> = (0..=64).collect();
+        lens.extend_from_slice(&[65, 100, 135, 136, 137, 200, 272, 300, 1000, 4096]);
+        if thorough { for _ in 0..300 { lens.push(rng.range(0, 64) as usize); } for _ in 0..60 { lens.push(rng.range(65, 5000) as usize); } }
+        for len in lens {
+            let m = content(&mut rng, len);
+            for ord in &p3 { seq_case(o, ord, &m, if len <= 64 { "short.perm3" } else { "longer.perm3" }); }
+            for _ in 0..2 { let n = rng.range(4, 6) as usize; let ord: String = (0..n).map(|_| *rng.pick(&alpha4)).collect(); seq_case(o, &ord, &m, "random_order"); }
+        }
+        // 32-byte messages that are public keys: the five forms in every order (first key), a sample of the orders (others)
+        {
+            use curve25519_dalek::constants::ED25519_BASEPOINT_POINT as G;
+            let p5 = perms("snkpq");
+            let n_keys = if thorough { 40 } else { 4 };
+            for it in 0..n_keys {
+                let key = (Scalar::from_bytes_mod_order(rng.arr32()) * G).compress().to_bytes();
+                if it == 0 || (thorough && it < 6) { for ord in &p5 { seq_case(o, ord, &key, "pubkey.perm5"); } }
+                else { for _ in 0..24 { let ord = rng.pick(&p5).clone(); seq_case(o, &ord, &key, "pubkey.perm5.sample"); } }
+            }
+        }
+        // messages that are serialised transaction prefixes: `TransactionPrefix::hash()` / `hash_to_scalar()` among the other forms
+        {
+            use monero::consensus::encode::serialize;
+            let p5 = perms("snkxy");
+            let n_tx = if thorough { 120 } else { 6 };
+            for _ in 0..n_tx {
+                let tx = crate::gen::tx(&mut rng);
+                let m = serialize(&tx.prefix);
+                if m.len() > 20_000 { continue; }
+                for _ in 0..12 { let ord = rng.pick(&p5).clone(); seq_case(o, &ord, &m, "tx_prefix.perm5.sample"); }
+            }
+        }
+    }
+    // (13) digests with SPARSE limbs for `as_scalar` (a hand-rolled reduction working on 64-bit limbs or estimating the quotient from the
+    // top four bits is wrong only on a thin set): q·2^252 and its neighbours; the band [q·2^252, q·l) where ⌊d/2^252⌋ = q but
+    // ⌊d/l⌋ = q − 1, at both ends and inside (q = 1..15); q·l ± 1; l − 1; 2^k and sums of two powers of two; one or more all-zero
+    // 64-bit limbs, the others random / all ones / one
+    {
+        let p252 = le_pow2(252);
+        let c = le_sub(&l, &p252); // l − 2^252 (about 2^124.6)
+        let mut w: Vec<([u8; 32], &str)> = vec![(p252, "sparse.pow2"), (le_pow2(253), "sparse.pow2"), (le_sub(&l, &one), "sparse.l_minus_1")];
+        for k in 0..=255usize { w.push((le_pow2(k), "sparse.pow2")); }
+        for q in 1..=15u64 {
+            let q252 = le_mul_small(&p252, q); let ql = le_mul_small(&l, q); let qc = le_mul_small(&c, q);
+            for d in [le_sub(&q252, &le_small(2)), le_sub(&q252, &one), q252, le_add(&q252, &one), le_add(&q252, &le_small(2))] { w.push((d, "sparse.q_2^252")); }
+            for d in [le_sub(&ql, &one), ql, le_add(&ql, &one)] { w.push((d, "sparse.q_l")); }
+            // the band [q·2^252, q·l) = q·2^252 + [0, q·c): its last members, and for every j < q the slice q·2^252 + j·c + (124-bit number)
+            for i in 1..=3u64 { w.push((le_sub(&ql, &le_small(i)), "sparse.band.top")); }
+            w.push((le_add(&q252, &le_sub(&qc, &one)), "sparse.band.top"));
+            let reps = if thorough { 40 } else { 2 };
+            for j in 0..q { for _ in 0..reps {
+                let mut x = [0u8; 32]; for b in x[..16].iter_mut() { *b = rng.byte(); } x[15] &= 0x0f; // < 2^124 < c
+                match rng.below(4) { 0 => { for b in x[8..16].iter_mut() { *b = 0; } } 1 => { for b in x[..8].iter_mut() { *b = 0; } } _ => {} }
+                let d = le_add(&q252, &le_add(&le_mul_small(&c, j), &x));
+                debug_assert!(le_ge(&d, &q252) && !le_ge(&d, &ql));
+                w.push((d, "sparse.band.inside"));
+            } }
+            // just above the band: q·l + (124-bit number), where the two quotients agree again
+            { let mut x = [0u8; 32]; for b in x[..15].iter_mut() { *b = rng.byte(); } w.push((le_add(&ql, &x), "sparse.above_band")); }
+        }
+        // sums of two powers of two (one bit in each of two limbs, or both in one)
+        for _ in 0..(if thorough { 4000 } else { 160 }) { let (a, b) = (rng.below(256) as usize, rng.below(256) as usize); let mut d = le_pow2(a); d[b / 8] |= 1 << (b % 8); w.push((d, "sparse.two_bits")); }
+        // zero limbs: every non-empty proper subset of the four 64-bit limbs zero, the rest random / all ones / the value one / one bit
+        for mask in 1..15u32 { for rep in 0..(if thorough { 64 } else { 10 }) {
+            let mut d = [0u8; 32];
+            for limb in 0..4usize { if mask >> limb & 1 == 1 { continue; }
+                let v: u64 = match (rep + limb) % 5 { 0 => u64::MAX, 1 => 1, 2 => 1u64 << rng.below(64), _ => rng.next() };
+                d[8 * limb..8 * limb + 8].copy_from_slice(&v.to_le_bytes()); }
+            if rep % 2 == 1 { d[31] &= 0x1f; }
+            if rep % 4 == 3 { d[31] = 0x10; }
+            w.push((d, "sparse.zero_limbs"));
+        } }
+        for (d, fam) in &w { hs_case(o, d, fam); }
+        // a share of them through `hash`-typed constructors as well
+        for j in 0..(if thorough { w.len() } else { 60 }) { let (d, _) = w[if thorough { j } else { rng.below(w.len() as u64) as usize }]; let cn = ["slice", "hex", "str", "dec", "from", "hex0x"][j % 6]; o.stat(&format!("hs.ctor.{}", cn)); o.op(format!("c17_hs_ctor {} {}", cn, hex(&d)), le_ge(&d, &l)); }
+    }
     // (6) wrong-length digests are not scalars (harness convention: err on both sides)
     for len in [0usize, 1, 31, 33, 64] { let d = rng.bytes(len); o.stat("hs.badlen"); o.op(format!("c17_hs {}", hex(&d)), false); }
     o.notes.push("nontrivial rule: every keccak / hash_to_scalar case; hs cases whose little-endian value is >= l (a reduction takes place)".into());
     o.notes.push("added families: digests l..l+256, l+2^k, 2^252+2^k up to 2^252+2^128, random members of [l, 2^252+2^128], k*l-1..k*l+1 (k=1..15), 2^k-1..2^k+1 (k=0..255), single-byte boundary patterns; as_scalar after from_slice/from_hex/FromStr/consensus_decode/From; A,B,A message pairs of equal length > 256 with a common prefix; shaped 32/33..42/64/65/73-byte messages (points, scalars, l, hash pairs, address bodies); Hashable::hash_to_scalar on Transaction/TransactionPrefix/RctSigBase; message lengths 64 KiB .. 1 MiB".into());
+    o.notes.push("session 5: the messages of the kernel-evaluated vectors (C17_kats_*) hashed by the library, tiny-keccak, the table-free Keccak and the Lean reference, digest compared with the theorem's value; c17_seq — hash_to_scalar / Hash::new / keccak_256 / Hash::new().as_scalar() / Hashable::hash / Hashable::hash_to_scalar on ONE message back to back in every order (lengths 0..64 and some longer; public keys; serialised transaction prefixes); sparse digests — q*2^252 +-2, the band [q*2^252, q*l) at both ends and inside for q = 1..15, q*l +-1, 2^k, two-bit values, every pattern of all-zero 64-bit limbs".into());
     o.notes.push("direct checks: keccak_256 vs tiny-keccak fed in two pieces; keccak_256 vs a table-free Keccak written from the specification; as_scalar vs Scalar::from_bytes_mod_order and vs repeated subtraction of l".into());
 }
